@@ -73,8 +73,9 @@ CHECKS["C07"] = kani_check("FilenameDistributor<u8>, one inductive step from an 
     "rename or not, new names in order of appearance) the invariant is kept and exactly the two components of the call are merged. Plus concrete call prefixes with a symbolic last call. std HashMap is an association list on the overlay; replay uses the real HashMap.", "DESIGN.md §2 C07, §11")
 
 CHECKS["C11"] = kani_check("Every sub-parser on fully symbolic buffers (<= 12 bytes; keyword lines with symbolic tails): no panic / overflow / out-of-bounds / unwrap-on-None, termination inside the unwinding bound, remainder a strict suffix; "
-    "numeric header fields: every 1..21-digit string gives its value or an error, extreme values (2^63, 2^64-1, 10^12, ...) through parse_hunk with capacity <= input length; placement terminates within a file-size bound for every stated line up to 2^62.",
-    "DESIGN.md §2 C11")
+    "numeric header fields: every 1..21-digit string gives its value or an error, extreme values (2^63, 2^64-1, 10^12, ...) through parse_hunk with capacity <= input length; placement terminates within a file-size bound for every stated line up to 2^62. Engine B: build_filepatch marks a file patch as a rename only when both names are real, "
+    "the invariant its consumers unwrap on (candidates replayed through the real binary: exit status must be 0/1).",
+    "DESIGN.md §2 C11", engine="kani+mirvc", technique="bounded model checking (Kani/CBMC) of every sub-parser on symbolic buffers; SMT-decided VC over MIR for the FilePatch rename invariant")
 CHECKS["C12"] = dict(level="model_checking", engine="kani+mirvc",
     text="Hunk level only. (i) header: start lines {0,1,9,10,98,99} x empty/non-empty sides through the real formatter are parsed back to the same start lines and counts (Kani); the start-line arithmetic of write_header_to composed with "
          "parse_hunk's target_line is the identity for EVERY 64-bit value (function summaries over MIR composed in z3). (ii') body: for hunks with <= 1 line per side (<= 2 in the thorough tier) and symbolic bytes the records write_to emits are, in order, "
